@@ -373,6 +373,95 @@ def C03(V, tier):
     V.sample({"template": T[1][0], "rules": T[1][2]})
 
 
+# ------------------------------------------------------------------------------------------------
+# D-centred checks on focused program families
+
+def _matrix(tier, rng, nl=2, nr=1, nb=2):
+    if tier == "quick":
+        return gen.config_matrix(rng, n_local=nl, n_remote=nr, n_batch=nb)
+    return gen.config_matrix(rng, n_local=4, n_remote=3, n_batch=3)
+
+
+def _focused(V, tier, prop, progs, checks=("result", "boundary", "link"), perturb_us=200, matrix=None, **kw):
+    wd = workdir(prop)
+    rng = random.Random(seed())
+    for p in progs:
+        p["prop"] = prop
+    matrix = matrix or _matrix(tier, rng)
+    res = jobsuite.run_suite(V, wd, progs, matrix, prop, checks=checks, perturb_us=perturb_us, **kw)
+    V.sample({"program": progs[0]["prog"], "config": [json.dumps(matrix[0][0]), matrix[0][1]]})
+    V.coverage["programs"] = len(progs)
+    V.coverage["configs"] = [f"{json.dumps(c)} {b}" for c, b in matrix]
+    return res
+
+
+def C07(V, tier):
+    rng = random.Random(seed() + 7)
+    _focused(V, tier, "C07", gen.agg_programs(rng, 70 if tier == "quick" else 700), checks=("result",))
+
+
+def C08(V, tier):
+    rng = random.Random(seed() + 8)
+    _focused(V, tier, "C08", gen.join_programs(rng, 60 if tier == "quick" else 600), checks=("result",),
+             perturb_us=400)
+
+
+def C09(V, tier):
+    rng = random.Random(seed() + 9)
+    _focused(V, tier, "C09", gen.fan_programs(rng, 60 if tier == "quick" else 600), checks=("result",))
+
+
+def C16(V, tier):
+    rng = random.Random(seed() + 16)
+    progs = gen.ordered_programs(rng, 40 if tier == "quick" else 300, big=(tier != "quick"))
+    matrix = [({"mode": "local", "par": 1}, b) for b in ("default", "single", "fixed:1", "fixed:3", "fixed:1024", "adaptive:2:500")]
+    matrix += [({"mode": "local", "par": 3}, "fixed:2"), ({"mode": "remote", "hosts": [1, 2]}, "default")]
+    _focused(V, tier, "C16", progs, checks=("result", "link"), matrix=matrix, perturb_us=0)
+
+
+def C10(V, tier):
+    rng = random.Random(seed() + 10)
+    _focused(V, tier, "C10", gen.loop_programs(rng, 50 if tier == "quick" else 500), checks=("result", "boundary"),
+             perturb_us=300)
+
+
+def C11(V, tier):
+    rng = random.Random(seed() + 11)
+    _focused(V, tier, "C11", gen.loop_programs(rng, 40 if tier == "quick" else 400, nested=False, side=True),
+             checks=("result", "boundary"), perturb_us=300)
+
+
+def C04(V, tier):
+    """Termination: every family with inputs far larger than the channel capacities under tiny batches,
+    empty inputs, loops, side inputs, diamonds; a job that makes no progress for hang_ms is a hang."""
+    rng = random.Random(seed() + 4)
+    q = tier == "quick"
+    progs = []
+    progs += gen.fan_programs(rng, 18 if q else 120)
+    progs += gen.join_programs(rng, 14 if q else 120)
+    progs += gen.loop_programs(rng, 16 if q else 150)
+    progs += gen.loop_programs(rng, 10 if q else 100, nested=False, side=True)
+    progs += gen.agg_programs(rng, 14 if q else 100)
+    for i, p in enumerate(progs):
+        p["name"] = f"t{i}_" + p["name"]
+    # stress: enlarge the par_range sources (100..400 elements >> 16 batches per link)
+    for p in progs:
+        for n in p["prog"]["nodes"]:
+            if n["op"] == "src" and n.get("kind") == "par_range" and n["hi"] - n["lo"] >= 5 and "loop" not in p["name"]:
+                n["hi"] = n["lo"] + rng.choice([100, 250, 400])
+    extra = _programs(20 if q else 200, seed() + 404, "C04", max_ops=6)
+    for p in extra:
+        p["name"] = "g" + p["name"]
+    progs += extra
+    matrix = [({"mode": "local", "par": 1}, "single"), ({"mode": "local", "par": 3}, "fixed:1"),
+              ({"mode": "local", "par": 2}, "adaptive:2:500"), ({"mode": "remote", "hosts": [2, 1]}, "single"),
+              ({"mode": "remote", "hosts": [1, 1, 1]}, "default")]
+    if not q:
+        matrix += [({"mode": "local", "par": 4}, "single"), ({"mode": "remote", "hosts": [2, 2]}, "fixed:1"),
+                   ({"mode": "remote", "hosts": [1, 3]}, "adaptive:3:200")]
+    _focused(V, tier, "C04", progs, checks=("result", "link"), matrix=matrix, perturb_us=300, hang_ms=12000)
+
+
 def replay(pid, path, V):
     with open(path) as f:
         data = json.load(f)
